@@ -6,7 +6,7 @@ StaticEditRequestHandler defaults to EmptyRequest() and looks everything up at t
 after and passes everything else through; SIBLING-NORMALISE for the StaticRequest path.  Not decided: behaviour of the primitives themselves (other properties).
 """
 from ..gfi import distribution, static_lang
-from ..gfi.common import is_zero, run_for
+from ..gfi.common import ctor_fields, is_zero, run_for
 from ..gfi.distribution import is_empty_chm, is_tag, is_update
 from ..rules import Arms, is_call, is_mcall
 from ..terms import C, Evaluator, G, P, is_t, mk_proj, show
@@ -100,7 +100,8 @@ def request_combinators(chk, prog):
     chk.require(okd, "DELEG-ROLE", "DiffAnnotate/defaults", "identity maps by default", derived=str(defaults)[:200], expected="default=lambda v: v for both", where=f"{da.module.rel}:{da.node.lineno}")
     eq = prog.cls("EditRequest", "core/generative/concepts.py")
     r = ev.eval_fn(eq.methods["dimap"], eq.module, eq)
-    okm = (is_t(r.ret, "call") or is_t(r.ret, "ctor")) and r.ret[2] == (S,) and dict(r.ret[3]) == {"argdiff_fn": P("pre"), "retdiff_fn": P("post")}
+    fm_ = ctor_fields(prog, r.ret, "DiffAnnotate", "EditRequest.dimap") if is_t(r.ret, "ctor") else {}
+    okm = is_t(r.ret, "ctor") and r.ret[2][:1] == (S,) and fm_.get("argdiff_fn") == P("pre") and fm_.get("retdiff_fn") == P("post")
     chk.require(okm, "DELEG-ROLE", "EditRequest.dimap", "pre -> argdiff_fn, post -> retdiff_fn", derived=show(r.ret)[:200], expected="DiffAnnotate(self, argdiff_fn=pre, retdiff_fn=post)", where=W(eq, "dimap"))
 
 
